@@ -978,7 +978,104 @@ def dead_peer_disconnect_case(ctx, case):
     ctx.label('dead_peer_disconnect')
 
 
-COMPONENTS = {'dead_peer': dead_peer_disconnect_case,
+def exit_reconnect_case(ctx, case):
+    """'... the same object can connect again, including from inside its own
+    listeners and handlers': the exit callback (handle_exit) starts the next
+    session when the server ended the last one.  That session is then the
+    active one: a connect()/status() from the user is refused with
+    InvalidState and disturbs nothing, disconnect() ends it, and every
+    thread terminates.  case {version, rounds, then: 'connect'|'status'}"""
+    import time
+    from minecraft.exceptions import InvalidState
+    version, rounds = case['version'], case['rounds']
+    ctx.ev()
+    kicked = [servers.Server({'version': version, 'login': [('success',)],
+                              'play': {'bursts': [[('keep_alive',
+                                                    {'keep_alive_id': 7})]],
+                                       'mode': 'reactive',
+                                       'end': 'disconnect'}})
+              for _ in range(rounds)]
+    last = servers.Server({'version': version, 'login': [('success',)],
+                           'play': {'bursts': [[('keep_alive',
+                                                 {'keep_alive_id': 8})]],
+                                    'mode': 'all', 'end': 'silent'}})
+    extra = []
+
+    def more(addr):
+        extra.append(addr)
+        return servers.Server({'version': version, 'login': [('success',)],
+                               'status': {'reply': '{"version":{"protocol":'
+                                          '%d}}' % version},
+                               'play': {'bursts': [], 'end': 'disconnect'}})
+    world = vnet.World(servers=kicked + [last], default=more)
+    log = []
+    with vnet.installed(world):
+        def on_exit():
+            log.append(('exit', len(world.links)))
+            if len(world.links) <= rounds:
+                try:
+                    conn.connect()
+                except Exception as e:
+                    log.append(('raised', repr(e)))
+        conn, o = servers.make_connection(world, allowed_versions={version},
+                                          handle_exit=on_exit)
+        try:
+            conn.connect()
+            for _ in range(8000):
+                if last.play_started and last.replies:
+                    break
+                time.sleep(0.001)
+            if not last.replies:
+                ctx.fail('exit_reconnect', 'S5-reconnect-from-exit-callback-'
+                         'failed', case, (log[-3:], len(world.links)),
+                         '%d sessions' % (rounds + 1))
+                world.kill_all()
+                return
+            world.wait_idle(last.link, conn)
+            err = None
+            try:
+                if case['then'] == 'connect':
+                    conn.connect()
+                else:
+                    conn.status(handle_status=False)
+            except InvalidState:
+                err = 'InvalidState'
+            except Exception as e:
+                err = repr(e)
+            if err != 'InvalidState':
+                ctx.fail('exit_reconnect', 'S2-accepted-although-active',
+                         case, err, 'InvalidState')
+                world.kill_all()
+                return
+            last.send_item(('keep_alive', {'keep_alive_id': 9}))
+            world.wait_idle(last.link, conn)
+            alive = last.replies[-1:] == [('keep_alive', 9)] and \
+                not last.errors and not extra
+            excs = [repr(e[0]) for e in o.exceptions]
+            conn.disconnect()
+            state = world.settle(timeout=20.0)
+        except Exception as e:
+            ctx.fail('exit_reconnect', 'S5-raised', case, exc=e)
+            world.kill_all()
+            return
+    if not alive:
+        ctx.fail('exit_reconnect', 'S2-active-session-disturbed', case,
+                 (last.replies[-2:], last.errors[:2], extra))
+        return
+    if state != 'done':
+        ctx.fail('exit_reconnect', 'S4-thread-not-terminated', case, state)
+        world.kill_all()
+        return
+    if any(x[0] == 'raised' for x in log) or excs:
+        ctx.fail('exit_reconnect', 'S5-reconnect-from-exit-callback-failed',
+                 case, ([x for x in log if x[0] == 'raised'][:2], excs[:2]))
+        return
+    ctx.nt('exit_reconnect', repr(case))
+    ctx.label('exit_reconnect')
+
+
+COMPONENTS = {'exit_reconnect': exit_reconnect_case,
+              'dead_peer': dead_peer_disconnect_case,
               'status_poller': status_poller_case,
               'history': history_case, 'stalled': stalled_case,
               'many_reconnects': many_reconnects_case,
@@ -1145,6 +1242,16 @@ def t_dead_peer(ctx):
                         'peer reset: 3 protocols x 3 disconnect forms')
 
 
+def t_exit_reconnect(ctx):
+    for v in (757, 340, 47):
+        for rounds in (1, 2, 4):
+            for then in ('connect', 'status'):
+                exit_reconnect_case(ctx, {'version': v, 'rounds': rounds,
+                                          'then': then})
+    ctx.exhaustive_done('reconnect from the exit callback: 3 protocols x '
+                        '1, 2, 4 kicked sessions x 2 refused calls')
+
+
 def t_status_poller(ctx):
     k = 0
     for v in (757, 340, 47):
@@ -1164,6 +1271,7 @@ def tasks(tier):
     tl = [('stalled', t_stalled, {}), ('refused', t_refused, {}),
           ('status_poller', t_status_poller, {}),
           ('dead_peer', t_dead_peer, {}),
+          ('exit_reconnect', t_exit_reconnect, {}),
           ('many_reconnects', t_many_reconnects,
            dict(n=1100 if q else 3000))]
     for i in range(len(SMALL)):
